@@ -47,7 +47,89 @@ MAX_CALLS = 400
 
 # ------------------------------------------------------------------------------------------------
 # tie: the two parameters of the model are read off the source
+def behaviour_config(ctx) -> tuple[bool, bool, bool] | None:
+    """The three facts the model variant depends on, OBSERVED on the real editor (robust against refactoring of
+    editor.py): (newline translation on read/write, os.makedirs guarded against dirname == '', include directory
+    glob-escaped). Three tiny probes in a scratch directory."""
+    from autobean_refactor import editor as editor_lib
+    top = os.path.realpath(tempfile.mkdtemp(prefix='cfg', dir=str(ctx.scratch)))
+    old = os.getcwd()
+    try:
+        ed = editor_lib.Editor(_parser())
+        # (1) CRLF file, one edit: do the other line ends survive?
+        with open(os.path.join(top, 'crlf.bean'), 'wb') as f:
+            f.write(b'2000-01-01 open Assets:A\r\n2000-01-02 open Assets:B\r\n')
+        with ed.edit_file(os.path.join(top, 'crlf.bean')) as file:
+            file.raw_directives[0].raw_account.value = 'Assets:C'
+        data = open(os.path.join(top, 'crlf.bean'), 'rb').read()
+        translate = data != b'2000-01-01 open Assets:C\r\n2000-01-02 open Assets:B\r\n'
+        # (2) bare root: is os.makedirs('') reached?
+        with open(os.path.join(top, 'bare.bean'), 'wb') as f:
+            f.write(b'2000-01-01 open Assets:A\n')
+        os.chdir(top)
+        log: list = []
+        guarded = True
+        try:
+            with fs_log(log):
+                with ed.edit_file_recursive('bare.bean') as files:
+                    pass
+        except FileNotFoundError:
+            guarded = False
+        if any(x[0] == 'makedirs' and x[1] == '' for x in log):
+            guarded = False
+        os.chdir(old)
+        # (3) directory with glob magic in its name and a look-alike sibling
+        os.makedirs(os.path.join(top, 'x[ab]'))
+        os.makedirs(os.path.join(top, 'xa'))
+        with open(os.path.join(top, 'x[ab]', 'g.bean'), 'wb') as f:
+            f.write(b'include "h.bean"\n')
+        for d in ('x[ab]', 'xa'):
+            with open(os.path.join(top, d, 'h.bean'), 'wb') as f:
+                f.write(b'2000-01-01 open Assets:A\n')
+        try:
+            with ed.edit_file_recursive(os.path.join(top, 'x[ab]', 'g.bean')) as files:
+                keys = {os.path.relpath(k, top) for k in files}
+            escaped = keys == {'x[ab]/g.bean', 'x[ab]/h.bean'}
+        except ValueError:
+            escaped = False
+        return (translate, guarded, escaped)
+    except Exception as e:
+        ctx.notes.append(f'behavioural probe of editor.py failed: {type(e).__name__}: {e}')
+        return None
+    finally:
+        os.chdir(old)
+        shutil.rmtree(top, ignore_errors=True)
+
+
 def source_config(ctx) -> tuple[bool, bool, bool] | None:
+    """Read off the source when its shape is the one this reader knows (a note, cross-checked); otherwise - e.g. after
+    helpers were extracted - observed on the running editor. Fails the tie only when neither is conclusive or when
+    they contradict each other."""
+    why: list[str] = []
+    by_ast = _source_config_ast(why)
+    by_run = behaviour_config(ctx)
+    if by_run is None and by_ast is None:
+        ctx.fail('tie', 'C16:tie', 'cannot determine newline mode / makedirs guard / glob escaping of editor.py: ' + '; '.join(why))
+        return None
+    if by_run is not None and by_ast is not None and by_run != by_ast:
+        ctx.fail('tie', 'C16:tie', f'editor.py reads as (translate, guard, escape) = {by_ast} but behaves as {by_run}')
+        return by_run
+    if by_ast is None:
+        ctx.notes.append('editor.py no longer has the shape the source reader knows (' + '; '.join(why) + '): newline mode, '
+                         'makedirs guard and glob escaping were observed on the running editor instead')
+    return by_run if by_run is not None else by_ast
+
+
+class _Why:
+    def __init__(self, why):
+        self.why = why
+
+    def fail(self, kind, sig, what, witness=None):
+        self.why.append(what)
+
+
+def _source_config_ast(why: list[str]) -> tuple[bool, bool, bool] | None:
+    ctx = _Why(why)
     src_path = common.REPO / 'autobean_refactor' / 'editor.py'
     try:
         tree = ast.parse(src_path.read_text())
